@@ -131,3 +131,45 @@ package swamp
 //@   ensures[asc_ValueString] !old(icall("IsInitialized", beaconASC)) && bc == BeaconTypeValueString ==> calls("Beacon.SortByValueStringASC") == old(calls("Beacon.SortByValueStringASC")) + 1 && calledwith("Beacon.SortByValueStringASC", 0, beaconASC)
 //@   ensures[desc_ValueString] !old(icall("IsInitialized", beaconDESC)) && bc == BeaconTypeValueString ==> calls("Beacon.SortByValueStringDESC") == old(calls("Beacon.SortByValueStringDESC")) + 1 && calledwith("Beacon.SortByValueStringDESC", 0, beaconDESC)
 //@   ensures[filled_before_sorted] !old(icall("IsInitialized", beaconASC)) || !old(icall("IsInitialized", beaconDESC)) ==> calls("Beacon.PushManyFromMap") > old(calls("Beacon.PushManyFromMap"))
+
+// ---------------------------------------------------------------------------------------
+// SaveFunction (properties C07, C30, C19, C09). Helpers are used through opaque contracts (their
+// bodies are not verified here); they only make the calls observable.
+//@ func (*swamp).deleteTreasureFromBeacons(s, key)
+//@   opaque
+//@ func (*swamp).addTreasureToBeacons(s, t)
+//@   opaque
+//@ func (*swamp).deleteTreasureIfBeaconInitialized(s, b, key)
+//@   opaque
+//@ func (*swamp).addToExpirationTimeBeacon(s, t)
+//@   opaque
+//@ func (*swamp).notifyBucketsInsert(s, t)
+//@   opaque
+//@ func (*swamp).notifyBucketsUpdate(s, t)
+//@   opaque
+//@ func (*swamp).sendEventToHydra(s, t, oldT, status)
+//@   opaque
+//@ func (*swamp).sendSwampInfo(s)
+//@   opaque
+//@ func (*swamp).fileWriterHandler(s, all)
+//@   opaque
+//@ trusted func (github.com/hydraide/hydraide/app/core/hydra/swamp/beacon.Beacon).Add(b, t)
+//@ trusted func (github.com/hydraide/hydraide/app/core/hydra/swamp/beacon.Beacon).Delete(b, key)
+//@ trusted func (github.com/hydraide/hydraide/app/core/hydra/swamp/metadata.Metadata).SetUpdatedAt(m)
+
+// - a record whose expiry changed is dropped from BOTH expiry-ordered indexes (ascending and
+//   descending) and re-added exactly when its new expiry is not 0 ("never expires");
+// - subscribers: exactly one event for a save that creates or modifies, none for a save that
+//   changes nothing; every changed record is queued for the writer exactly once;
+// - the status reported is New / Modified / Same accordingly.
+//@ func (*swamp).SaveFunction(s, t, guardID) (status)
+//@   property C07 C30 C19
+//@   requires[record] t != nil
+//@   modifies *
+//@   ensures[expiry_change_drops_both_orders] calls("swamp.deleteTreasureIfBeaconInitialized") > old(calls("swamp.deleteTreasureIfBeaconInitialized")) ==> calls("swamp.deleteTreasureIfBeaconInitialized") == old(calls("swamp.deleteTreasureIfBeaconInitialized")) + 2 && calledwith("prev:swamp.deleteTreasureIfBeaconInitialized", 1, old(s.expirationTimeBeaconASC)) && calledwith("swamp.deleteTreasureIfBeaconInitialized", 1, old(s.expirationTimeBeaconDESC))
+//@   ensures[expiry_index_membership_iff_nonzero] calls("swamp.deleteTreasureIfBeaconInitialized") > old(calls("swamp.deleteTreasureIfBeaconInitialized")) ==> ((U_treasure_exp(t) != 0) <==> (calls("swamp.addToExpirationTimeBeacon") == old(calls("swamp.addToExpirationTimeBeacon")) + 1))
+//@   ensures[expiry_only_change_refreshes_index] status == treasure.StatusModified && !old(icall("IsContentTypeChanged", t)) && old(icall("IsExpirationTimeChanged", t)) ==> calls("swamp.deleteTreasureIfBeaconInitialized") == old(calls("swamp.deleteTreasureIfBeaconInitialized")) + 2
+//@   ensures[one_event_per_change] (status == treasure.StatusNew || status == treasure.StatusModified) ==> calls("swamp.sendEventToHydra") == old(calls("swamp.sendEventToHydra")) + 1 && calledwith("swamp.sendEventToHydra", 1, t) && calledwith("swamp.sendEventToHydra", 3, status)
+//@   ensures[no_event_for_noop_save] status == treasure.StatusSame ==> calls("swamp.sendEventToHydra") == old(calls("swamp.sendEventToHydra"))
+//@   ensures[changed_record_queued_for_writer] (status == treasure.StatusNew || status == treasure.StatusModified) ==> calledwith("Beacon.Add", 1, t)
+//@   ensures[noop_not_queued] status == treasure.StatusSame ==> calls("Beacon.Add") == old(calls("Beacon.Add"))
